@@ -313,6 +313,11 @@ def conserve(R):
     single, whole = [], []
     for (n, c) in bm:
         if n.kind != 'yield':
+            # a message that is built but not yielded at once (kept for later) is delivered out of order or late
+            R.ob('C01.conserve', 'a built message is yielded where it is built', False,
+                 '`%s` builds a message without yielding it there: the message is held back (delivered later, after messages '
+                 'that completed after it - a Pong queued until the next data message ends)' % n.text()[:60], func=q, node=c,
+                 construct='message built but not yielded at once')
             continue
         for (conds, val, site) in value_cases(R, g, n, c.args[0]):
             if isinstance(val, ast.List) and [U(e) for e in val.elts] == [fv]:
